@@ -149,8 +149,8 @@ func cmdCheck(repo, root string, args []string) int {
 	if tier == "thorough" {
 		timeout = 60 * time.Second
 	}
-	evPath := filepath.Join(root, "evidence", prop+".json")
-	os.MkdirAll(filepath.Join(root, "evidence", "replay"), 0o755)
+	evPath := filepath.Join(evidenceDir(root), prop+".json")
+	os.MkdirAll(filepath.Join(evidenceDir(root), "replay"), 0o755)
 	os.Remove(evPath)
 	fault := func(msg string) int {
 		fmt.Fprintln(os.Stderr, "govc: engine fault:", msg)
@@ -169,10 +169,17 @@ func cmdCheck(repo, root string, args []string) int {
 		return fault("loading /repo: " + err.Error())
 	}
 	w.Known = map[string]*KnownFinding{}
+	// findings recorded against other properties: their obligations can enter through the dependency closure; they are
+	// neither violations of this property nor findings of it (reported in evidence as assumed-with-finding)
+	otherKnown := map[string]*KnownFinding{}
 	for _, k := range known.Findings {
 		if hasProp(k.props(), prop) {
 			for _, n := range k.names() {
 				w.Known[n] = k
+			}
+		} else {
+			for _, n := range k.names() {
+				otherKnown[n] = k
 			}
 		}
 	}
@@ -185,6 +192,23 @@ func cmdCheck(repo, root string, args []string) int {
 	assumed := map[string]bool{}
 	funcs := []string{}
 	nBound := 0
+	// Pass 1: every function whose contract names the property, restricted to the clauses tagged with it.
+	// Pass 2 (dependency closure): a modular proof of those clauses assumed the whole contract of every callee it met,
+	// so each such callee contract is verified in full (all clauses, all behaviours), transitively; otherwise a change
+	// that breaks only a callee's clause would leave this property's check silent although its proof no longer stands.
+	type fres struct {
+		rep *FuncReport
+		all bool
+	}
+	results := map[string]*fres{}
+	var work []string
+	need := func(rep *FuncReport) {
+		for c := range rep.Callees {
+			if r := results[c]; r == nil || !r.all {
+				work = append(work, c)
+			}
+		}
+	}
 	for _, k := range sortedKeys(w.Specs) {
 		fs := w.Specs[k]
 		if !specMentions(fs, prop) {
@@ -192,7 +216,38 @@ func cmdCheck(repo, root string, args []string) int {
 		}
 		w.OnlyProp = prop
 		rep := w.VerifyFunc(fs)
+		results[k] = &fres{rep: rep}
+	}
+	for _, k := range sortedKeys2(results) {
+		need(results[k].rep)
+	}
+	nDep := 0
+	for len(work) > 0 {
+		sort.Strings(work)
+		k := work[0]
+		work = work[1:]
+		if r := results[k]; r != nil && r.all {
+			continue
+		}
+		fs := w.Specs[k]
+		if fs == nil {
+			continue
+		}
+		w.OnlyProp = ""
+		rep := w.VerifyFunc(fs)
+		results[k] = &fres{rep: rep, all: true}
+		nDep++
+		need(rep)
+	}
+	w.OnlyProp = prop
+	depFuncs := []string{}
+	for _, k := range sortedKeys2(results) {
+		r := results[k]
+		rep := r.rep
 		nBound++
+		if r.all {
+			depFuncs = append(depFuncs, shortKey(k))
+		}
 		funcs = append(funcs, shortKey(k))
 		for a := range rep.Assumed {
 			assumed[a] = true
@@ -201,7 +256,7 @@ func cmdCheck(repo, root string, args []string) int {
 			genErrs = append(genErrs, shortKey(k)+": "+e)
 		}
 		for _, o := range rep.Obls {
-			if hasProp(o.Props, prop) {
+			if r.all || hasProp(o.Props, prop) {
 				obls = append(obls, o)
 			}
 		}
@@ -243,7 +298,13 @@ func cmdCheck(repo, root string, args []string) int {
 			}
 		}
 	}
-	if prop == "C08" {
+	usesGSM7 := prop == "C08"
+	for key := range results {
+		if strings.Contains(key, "/gsm7encoding.") {
+			usesGSM7 = true // contracts of that package speak about the alphabet through its lookup tables
+		}
+	}
+	if usesGSM7 {
 		obls = append(obls, w.gsm7TableObligations(root)...)
 	}
 	genS := time.Since(t0).Seconds() - loadS
@@ -251,7 +312,7 @@ func cmdCheck(repo, root string, args []string) int {
 		return fault("no obligations generated for " + prop + " (vacuity guard)")
 	}
 	for _, o := range obls {
-		if w.Known[o.Name] != nil {
+		if w.Known[o.Name] != nil || otherKnown[o.Name] != nil {
 			o.ShortTimeout = true
 		}
 	}
@@ -354,7 +415,7 @@ func cmdCheck(repo, root string, args []string) int {
 	for _, k := range known.Fixed {
 		if r := wres[k.ID]; r != nil && r.Status == "MANIFESTS" {
 			violations++
-			rp := filepath.Join(root, "evidence", "replay", prop+"-witness-"+k.ID+".json")
+			rp := filepath.Join(evidenceDir(root), "replay", prop+"-witness-"+k.ID+".json")
 			writeJSON(rp, map[string]interface{}{"property": prop, "finding": k.ID, "what": k.What, "witness_test": r.File, "output": r.Line,
 				"rerun": "/verif/check " + prop + " quick", "note": "a defect recorded as fixed manifests again on the real code (concrete input in the witness test)"})
 			fmt.Printf("VIOLATION property=%s replay=%s finding=%s (recorded as fixed, manifests again: %s)\n", prop, rp, k.ID, r.Line)
@@ -362,7 +423,12 @@ func cmdCheck(repo, root string, args []string) int {
 	}
 	knownPrinted := map[string]bool{}
 	var knownLines []string
+	otherSkipped := []string{}
 	for _, f := range fails {
+		if f.known == nil && otherKnown[f.name] != nil {
+			otherSkipped = append(otherSkipped, f.name+" ("+otherKnown[f.name].ID+")")
+			continue
+		}
 		if f.known != nil {
 			if !knownPrinted[f.known.ID] {
 				knownPrinted[f.known.ID] = true
@@ -378,7 +444,7 @@ func cmdCheck(repo, root string, args []string) int {
 			if confirmed, rec := replayModel(repo, root, f.obl); confirmed {
 				rec["property"], rec["obligation"], rec["clause"], rec["at"] = prop, f.name, f.text, f.pos
 				rec["rerun"] = "/verif/check " + prop + " quick"
-				rp := filepath.Join(root, "evidence", "replay", prop+"-"+sanitize(f.name)+".json")
+				rp := filepath.Join(evidenceDir(root), "replay", prop+"-"+sanitize(f.name)+".json")
 				writeJSON(rp, rec)
 				fmt.Printf("VIOLATION property=%s replay=%s obligation=%q input: %v\n", prop, rp, f.name, rec["input"])
 				continue
@@ -447,7 +513,7 @@ func cmdCheck(repo, root string, args []string) int {
 	level := "proof"
 	nKnownObl := 0
 	for _, f := range fails {
-		if f.known != nil {
+		if f.known != nil || otherKnown[f.name] != nil {
 			nKnownObl++
 		}
 	}
@@ -464,17 +530,20 @@ func cmdCheck(repo, root string, args []string) int {
 		"checker_cmd":                            fmt.Sprintf("/verif/check %s %s  (govc: go/ssa weakest-precondition style VC generation over /repo's working tree; z3 4.8.12, z3 5.1.0, cvc5 1.0 raced per obligation, timeout %v)", prop, tier, timeout),
 		"trusted_base":                           asm,
 		"functions_under_contract":               funcs,
-		"solver_wins":                            wins,
-		"solver_ms_total":                        totalMS,
-		"solver_ms_max":                          maxMS,
-		"slowest_obligation":                     maxName,
-		"theory_lemmas_reproved":                 len(t1Lemmas),
-		"vacuity_checks":                         len(vac),
-		"samples":                                samples,
-		"witness_replays":                        witnessSummary(wres),
-		"load_s":                                 loadS,
-		"generate_s":                             genS,
-		"contract_files":                         relFiles(w.Files, repo),
+		"dependency_closure":                     depFuncs,
+		"dependency_closure_note":                "callee contracts the property's proofs assumed at call sites; each is verified in full (all clauses) in this run, transitively",
+		"assumed_clauses_with_findings_of_other_properties": otherSkipped,
+		"solver_wins":            wins,
+		"solver_ms_total":        totalMS,
+		"solver_ms_max":          maxMS,
+		"slowest_obligation":     maxName,
+		"theory_lemmas_reproved": len(t1Lemmas),
+		"vacuity_checks":         len(vac),
+		"samples":                samples,
+		"witness_replays":        witnessSummary(wres),
+		"load_s":                 loadS,
+		"generate_s":             genS,
+		"contract_files":         relFiles(w.Files, repo),
 	}
 	if discharged != nObl-nKnownObl {
 		// the proof did not go through: this run proves nothing; say so rather than claim the level
@@ -488,7 +557,7 @@ func cmdCheck(repo, root string, args []string) int {
 		fmt.Fprintln(os.Stderr, err)
 		return 2
 	}
-	fmt.Printf("%s %s: %d obligations, %d discharged, %d known findings, %d violations, %.1fs\n", prop, tier, nObl, discharged, len(knownLines), violations, time.Since(t0).Seconds())
+	fmt.Printf("%s %s: %d obligations generated, %d excluded by listed known findings (%d of this property, printed above), %d to discharge, %d discharged, %d violations, %.1fs\n", prop, tier, nObl, nKnownObl, len(knownLines), nObl-nKnownObl, discharged, violations, time.Since(t0).Seconds())
 	if violations > 0 {
 		return 1
 	}
@@ -513,7 +582,7 @@ func writeJSON(path string, v interface{}) error {
 }
 
 func writeReplay(root, prop, name, status, text, pos, detail string) string {
-	fn := filepath.Join(root, "evidence", "replay", prop+"-"+sanitize(name)+".json")
+	fn := filepath.Join(evidenceDir(root), "replay", prop+"-"+sanitize(name)+".json")
 	writeJSON(fn, map[string]interface{}{
 		"property":   prop,
 		"obligation": name,
@@ -534,4 +603,22 @@ func witnessSummary(w map[string]*witnessRun) []string {
 		out = append(out, id+" "+w[id].Status)
 	}
 	return out
+}
+
+// evidenceDir: /verif/evidence, or a scratch directory when the self-test runs a check on a mutated copy
+// (so that a must-fail run never overwrites the evidence of the real tree).
+func evidenceDir(root string) string {
+	if e := os.Getenv("VERIF_EVIDENCE_DIR"); e != "" {
+		return e
+	}
+	return filepath.Join(root, "evidence")
+}
+
+func sortedKeys2[V any](m map[string]V) []string {
+	var ks []string
+	for k := range m {
+		ks = append(ks, k)
+	}
+	sort.Strings(ks)
+	return ks
 }
